@@ -471,13 +471,17 @@ def units(tier, seed):
             us.append({'harness': 'history', 'client': 'geophires', 'H': H, 'caching': caching})
         us.append({'harness': 'history', 'client': 'hip', 'H': H, 'caching': False})
     us.append({'harness': 'dummy'})
-    from . import c08files
+    from . import c08files, c08seed
     us += c08files.units(tier)
+    us += c08seed.units(tier)
     return us
 
 
 def run_unit(unit):
-    if unit['harness'] == 'client-real-files':
+    if unit['harness'] == 'hash-seed':
+        from . import c08seed
+        yield from c08seed.run_unit(unit)
+    elif unit['harness'] == 'client-real-files':
         from . import c08files
         yield from c08files.run_unit(unit)
     elif unit['harness'] == 'history':
